@@ -45,6 +45,9 @@ def gen_cases(tier, seed):
         for t, r in ((1, 0), (2, 0), (3, 0), (0, 2), (2, 2), (0, 0)):
             for pstyle in ('plain', 'twice'):
                 cases.append({'kind': kind, 'tx': t, 'rx': r, 'c': 'twice', 'p': pstyle, 'one_ctx': False, 'seed': seed * 7 + len(cases)})
+        for t, r in ((0, 0), (1, 0), (0, 1), (2, 1), (1, 3)):
+            for cstyle in ('withret', 'executor'):
+                cases.append({'kind': kind, 'tx': t, 'rx': r, 'c': cstyle, 'p': 'plain' if t != 2 else 'coro', 'one_ctx': False, 'seed': seed * 7 + len(cases)})
     if tier == 'thorough':
         for c in cases:
             c['deep'] = True
@@ -93,8 +96,32 @@ def source(cname, case):
     prod_twice = ["            self.sent <<= False", "            free = f.is_clear()", "            self.pstatus <<= f.is_clear()",
                   "            if self.want_send and free:", f"                {send}"] + \
                  (["                payload.next = self.pin"] if kind == 'flag' else []) + ["                self.sent <<= True"]
+    # `async with` inside a helper coroutine that leaves the block by `return` on some paths only (the exit handler must run
+    # on the returning path and on the path that falls out of the block)
+    pre = []
+    if kind == 'flag':
+        pre += ["        async def take():", "            async with f:", "                if payload[0]:", "                    return True",
+                "                self.status <<= ~self.status", "            return False"]
+        cons_withret = ["            self.got <<= False", "            await self.can_recv", "            odd = await take()",
+                        f"            self.dout <<= {rd}", "            self.pstatus <<= odd", "            self.got <<= True"]
+    else:
+        pre += ["        async def take():", "            async with f._flag:", "                if f.data()[0]:", "                    return f.data()",
+                "                self.status <<= ~self.status", "            return f.data()"]
+        cons_withret = ["            self.got <<= False", "            await self.can_recv", "            self.dout <<= await take()", "            self.got <<= True"]
+    # the receiving side runs inside the action of an `immediate_after` std.Executor of the consumer context: the first use of
+    # the flag in that context happens while the executors of the context are converted
+    if kind == 'flag':
+        pre += ["        async def drain():", "            await f.receive()", f"            self.dout <<= {rd}"]
+    else:
+        pre += ["        async def drain():", "            self.dout <<= await f.receive()"]
+    pre += ["        drain_executor = std.Executor.make_after(drain, None)"]
+    cons_exec = ["            self.got <<= False", "            await self.can_recv", "            await drain_executor.exec()", "            self.got <<= True"]
     prod = {'plain': prod_plain, 'coro': prod_coro, 'twice': prod_twice}[case['p']]
-    cons = {'plain': cons_plain, 'receive': cons_recv, 'with': cons_with, 'twice': cons_twice}[case['c']]
+    cons = {'plain': cons_plain, 'receive': cons_recv, 'with': cons_with, 'twice': cons_twice, 'withret': cons_withret, 'executor': cons_exec}[case['c']]
+    if case['c'] == 'withret':
+        L += pre[:6]
+    elif case['c'] == 'executor':
+        L += pre[6:]
     if case['one_ctx']:
         L += ["        @ctx", "        def both():"] + prod_plain + [c for c in cons_plain if 'self.got <<= False' not in c or True]
     else:
